@@ -955,6 +955,9 @@ class Sandbox:
         """
         if inputs is None:
             self.inputs = []
+        if isinstance(inputs, list):
+            # A copy: the caller may be handing the queue itself back
+            inputs = list(inputs)
         if clear:
             self.inputs.clear()
         if isinstance(inputs, str):
